@@ -61,14 +61,14 @@ func TestMain(m *testing.M) {
 
 func TestC13_npm(t *testing.T) {
 	col := ev.Get("C13")
-	ev.Check(t, col, ev.Scale(6000, 12000), func(rt *rapid.T) c13Case {
+	ev.Check(t, col, ev.Scale(6000, 8000), func(rt *rapid.T) c13Case {
 		return c13Case{Npm: genNpmCase(rt, col)}
 	}, propC13)
 }
 
 func TestC13_pom(t *testing.T) {
 	col := ev.Get("C13")
-	ev.Check(t, col, ev.Scale(2500, 10000), func(rt *rapid.T) c13Case {
+	ev.Check(t, col, ev.Scale(2500, 5000), func(rt *rapid.T) c13Case {
 		return c13Case{Pom: genPomCase(rt, col)}
 	}, propC13)
 }
